@@ -56,7 +56,7 @@ func (f *If) Call(s *slip.Scope, args slip.List, depth int) (result slip.Object)
 	result = nil
 	d2 := depth + 1
 	pos := 0
-	test := slip.EvalArg(s, args, pos, d2) != nil
+	test := slip.Primary(slip.EvalArg(s, args, pos, d2)) != nil
 	pos++
 	if test {
 		result = slip.EvalArg(s, args, pos, d2)
